@@ -419,8 +419,26 @@ Definition check_key (o : op) : option name :=
   | Mounts k _ => Some k
   | _ => None
   end.
+Definition op_key (o : op) : option name :=
+  match o with Prepare k _ _ _ _ | View k _ _ _ | Mounts k _ => Some k | _ => None end.
 Definition cbad_of (o : op) : list nat :=
   match o with Prepare _ _ _ _ c | View _ _ _ c | Mounts _ c => c | _ => [] end.
+
+(* What a Prepare naming target [t] may leave behind (s before, s' after, r its result); see C08. *)
+Definition target_outcome (s s' : st) (key : name) (l : labels) (mok : bool) (t : name) (r : res) : Prop :=
+  match r with
+  | RTargetExists =>
+      exists i, lookup (meta s') t = Some i /\ i_kind i = KCommitted /\
+        (lookup (meta s) t = None ->
+           i_labels i = set_remote l /\ mount_count s' (i_id i) = 1 /\ In (DId (i_id i)) (dirs s') /\
+           lookup (meta s') key = None)
+  | RMounts m =>
+      mok = false /\
+      exists i, lookup (meta s') key = Some i /\ i_kind i = KActive /\ i_labels i = l /\
+        mounted s' (i_id i) = false /\ (m = MBind (i_id i) false \/ exists lw, m = MOverlay (Some (i_id i)) lw)
+  | RErr e => meta s' = meta s \/ (e = EUnavail /\ mok = false)
+  | _ => False
+  end.
 
 (* Discipline of an event sequence: every Unmount that hits a live mount satisfies [P] (its directory),
    and every directory removal comes directly after the backend Unmount call for that directory. *)
